@@ -722,7 +722,8 @@ def _run(case, sw, out, nt):
       failures.sort(key=lambda m: (m[0] != "frame-bytes", m[3] if len(m) > 3 else 0))
       clause, disc, msg = failures[0][:3]
       disc = dict(disc)
-      disc["frame"] = fclass
+      if clause in ("frame-bytes", "packet-in"):
+        disc["frame"] = fclass          # byte-level damage is a matter of the frame kind; port decisions are not
       _vkey(out, clause, "step %d (%s, in_port %s, frame %s, actions %s):\n%s" % (
           si, mode, in_port, fclass, [SHORT[a["a"]] for a in actions], msg), **disc)
       return
@@ -770,7 +771,10 @@ def _check_stats(out, sw, port_state, tx, rx_lo, rx_hi, fclass, single=None):
     elif not (rx_lo[p][1] <= rxb <= rx_hi[p][1]):
       bad = ("rx_bytes", "port %d: rx_bytes %d, expected %d..%d" % (p, rxb, rx_lo[p][1], rx_hi[p][1]))
     if bad:
-      _vkey(out, "port-stats", bad[1], field=bad[0], frame=fclass)
+      if bad[0].endswith("_bytes"):
+        _vkey(out, "port-stats", bad[1], field=bad[0], frame=fclass)
+      else:
+        _vkey(out, "port-stats", bad[1], field=bad[0])
       ok = False
   return ok
 
